@@ -15,6 +15,8 @@ package py
 import (
 	"bytes"
 	"fmt"
+	"math"
+	"math/big"
 	"strconv"
 	"strings"
 	"unicode"
@@ -570,13 +572,25 @@ func (s String) M__contains__(item Object) (Object, error) {
 }
 
 // indexArg converts an optional start/end argument (in characters)
-// of startswith and endswith: None selects the default
+// of find, count, startswith and endswith: None selects the default
+// and integers beyond the machine word saturate, as Python's slice
+// index conversion does
 func indexArg(arg Object, def int) (int, error) {
 	switch x := arg.(type) {
 	case NoneType:
 		return def, nil
 	case Int:
 		return int(x), nil
+	case Bool:
+		if x {
+			return 1, nil
+		}
+		return 0, nil
+	case *BigInt:
+		if (*big.Int)(x).Sign() < 0 {
+			return math.MinInt, nil
+		}
+		return math.MaxInt, nil
 	}
 	return 0, ExceptionNewf(TypeError, "slice indices must be integers or None or have an __index__ method")
 }
@@ -659,20 +673,23 @@ func adjustIndices(start, end, length int) (int, int) {
 func (s String) Count(args Tuple) (Object, error) {
 	var (
 		pysub Object
-		pybeg Object = Int(0)
-		pyend Object = Int(s.len())
-		pyfmt        = "s|ii:count"
+		pybeg Object = None
+		pyend Object = None
+		pyfmt        = "s|OO:count"
+		size         = s.len()
 	)
 	err := ParseTuple(args, pyfmt, &pysub, &pybeg, &pyend)
 	if err != nil {
 		return nil, err
 	}
-
-	var (
-		beg  = int(pybeg.(Int))
-		end  = int(pyend.(Int))
-		size = s.len()
-	)
+	beg, err := indexArg(pybeg, 0)
+	if err != nil {
+		return nil, err
+	}
+	end, err := indexArg(pyend, size)
+	if err != nil {
+		return nil, err
+	}
 	beg, end = adjustIndices(beg, end, size)
 	if beg > end {
 		return Int(0), nil
@@ -688,20 +705,23 @@ func (s String) Count(args Tuple) (Object, error) {
 func (s String) find(args Tuple) (Object, error) {
 	var (
 		pysub Object
-		pybeg Object = Int(0)
-		pyend Object = Int(s.len())
-		pyfmt        = "s|ii:find"
+		pybeg Object = None
+		pyend Object = None
+		pyfmt        = "s|OO:find"
+		size         = s.len()
 	)
 	err := ParseTuple(args, pyfmt, &pysub, &pybeg, &pyend)
 	if err != nil {
 		return nil, err
 	}
-
-	var (
-		beg  = int(pybeg.(Int))
-		end  = int(pyend.(Int))
-		size = s.len()
-	)
+	beg, err := indexArg(pybeg, 0)
+	if err != nil {
+		return nil, err
+	}
+	end, err := indexArg(pyend, size)
+	if err != nil {
+		return nil, err
+	}
 	beg, end = adjustIndices(beg, end, size)
 	if beg > end {
 		return Int(-1), nil
